@@ -6,7 +6,10 @@ ROOT = os.path.dirname(os.path.dirname(os.path.abspath(__file__)))
 # id -> (technique, level text, level note, design ref)
 import glob
 CLAIMED = {}
+READY = set(open(os.path.join(ROOT, "tools", "ready.txt")).read().split())
 for f in sorted(glob.glob(os.path.join(ROOT, "harness", "*", "manifest.json"))):
+    if os.path.basename(os.path.dirname(f)) not in READY:
+        continue  # crate still under construction: not claimed yet
     for k, v in json.load(open(f)).items():
         CLAIMED[k] = (v["technique"], v["text"], v["note"], v.get("ref", "DESIGN.md §6 " + k))
 
